@@ -4,6 +4,7 @@ package main
 
 import (
 	"bytes"
+	"encoding/json"
 	"fmt"
 
 	codec "github.com/evanphx/json-patch/v5/verifcodec"
@@ -146,4 +147,20 @@ func (r *recorder) execScan(text []byte) {
 	r.index = append(r.index, map[string]interface{}{"first": first, "last": r.line, "fam": "scan", "text": string(text), "text_bytes": bw(text)})
 }
 
-func init() { extraFamilies["scan"] = (*recorder).scanTrace }
+func init() {
+	extraFamilies["scan"] = (*recorder).scanTrace
+	extraReplays["scan"] = func(r *recorder, raw json.RawMessage) error {
+		var c struct {
+			TextBytes []int `json:"text_bytes"`
+		}
+		if err := json.Unmarshal(raw, &c); err != nil {
+			return err
+		}
+		b := make([]byte, len(c.TextBytes))
+		for i, x := range c.TextBytes {
+			b[i] = byte(x)
+		}
+		r.execScan(b)
+		return nil
+	}
+}
